@@ -164,8 +164,14 @@ def ptr_history(rnd, first_id):
             op, n = rnd.choice(OPS), rnd.choice([0, 1, 2, 3, 4, 7, 16])
             if op in ("//", "%") and n == 0:
                 n = 2
+            operand = n
+            if op == "-" and rnd.random() < 0.5:
+                # pointer - pointer: the right operand is a pointer object itself (the statement makes no exception: a pointer of
+                # the same type on the same stream; seed S126)
+                operand = rnd.choice(todo)[2]
+                n = int(operand)
             try:
-                q = eval(f"p {op} n", {"p": p, "n": n})   # noqa: S307 - operator applied to the real pointer object
+                q = eval(f"p {op} n", {"p": p, "n": operand})   # noqa: S307 - operator applied to the real pointer object
                 obs = observe_deref(q, target, stream) if hasattr(q, "dereference") else {"status": "error", "v": codec.NONE_V, "again_same": True, "pos": stream.tell() if stream else 0}
                 obs.update(sameclass=type(q) is type(p), addr=A.pint(int(q)))
             except Exception as e:  # noqa: BLE001
